@@ -102,7 +102,7 @@ func (e *Eng) step(fr *Frame, st *State, instr ssa.Instruction) {
 			e.safe(fr, st, "nil", tNot(tEq(p.Ref, null)), in, "pointer is not nil when a field is accessed")
 		}
 		st0 := in.X.Type().Underlying().(*types.Pointer).Elem()
-		if p.Kind != pStruct {
+		if p.Kind != pStruct && p.Kind != pLocal && p.Kind != pGlobal {
 			panic(unsupportedErr{fmt.Sprintf("FieldAddr on pointer kind %d in %s", p.Kind, fr.fn)})
 		}
 		fr.vals[in] = e.fieldPtr(p, st0, in.Field)
@@ -495,7 +495,8 @@ func (e *Eng) unop(fr *Frame, st *State, in *ssa.UnOp) Val {
 			e.assumeValAllocated(fr, st, in.Type(), v)
 		} else if fr.side != nil {
 			if w := e.wf(in.Type(), v); w != "true" {
-				*fr.side = append(*fr.side, w)
+				// a type invariant is a fact only on the paths that really perform the load
+				*fr.side = append(*fr.side, tImp(st.reach, w))
 			}
 		}
 		return v
@@ -701,6 +702,10 @@ func (e *Eng) typeAssert(fr *Frame, st *State, in *ssa.TypeAssert) Val {
 		} else {
 			res = e.hload(st, "Box|"+typeName(at), []T{x.V}, at)
 		}
+	}
+	if p, isPtr := res.(*PtrV); isPtr && !fr.pure && e.w.nonNilDynamic(in.X.Type()) {
+		e.assume(st, tImp(ok, tNot(tEq(p.Ref, null))))
+		e.note("trusted data invariant: values of " + typeName(in.X.Type()) + " never hold typed-nil pointers")
 	}
 	if in.CommaOk {
 		if _, isIface := under(at).(*types.Interface); !isIface {
